@@ -353,7 +353,7 @@ def run(ctx):
     # ---- Jaccard / Forbes over several contigs (each set may have no interval on some contigs, first, middle or last) -----------------
     def multi(case):
         r = random.Random(case["seed"])
-        names = ["chr1", "chr2", "chr3", "chr4"][:r.randint(2, 4)]
+        names = r.choice([["chr1", "chr2", "chr3", "chr4"], ["chr2", "chr10", "chr1", "chrX"], ["chrX", "chrM", "chr9", "chr10"]])[:r.randint(2, 4)]      # contig order need not be the sorted order of the names
         sizes = {n: r.randint(3, 30) for n in names}
         def draw():
             rows = []
@@ -377,6 +377,38 @@ def run(ctx):
         N = a_ + b_ + c_ + d_
         wit = {"sizes": sizes, "a": A, "b": B, "seed": case["seed"]}
         nt = (tuple(sizes.items()), tuple(A), tuple(B))
+        # the other accepted way of handing the intervals over: a dict {contig: table}, for one set or both
+        as_dict = lambda rows: {n: mk([x for x in rows if x[0] == n]) for n in names if any(x[0] == n for x in rows)}
+        for way, (xa, xb) in (("a-dict", (as_dict(A), mk(B))), ("both-dicts", (as_dict(A), as_dict(B)))):
+            if N - d_ > 0 and set(as_dict(A)) == set(names) and (way == "a-dict" or set(as_dict(B)) == set(names)):
+                try:
+                    got = jaccard(sizes, xa, xb)
+                except Exception as e:
+                    from bnpmon.ctx import originates_in_library
+                    if not originates_in_library(e):
+                        raise
+                    got = None
+                    ctx.check("jaccard", False, "jaccard/raised:dict-of-tables:%s" % type(e).__name__, "jaccard with %s raised %s" % (way, type(e).__name__), dict(wit, way=way), (nt, way))
+                if got is not None:
+                    ctx.check("jaccard", abs(got - a_ / (N - d_)) < 1e-12, "jaccard/value:several-contigs:dict-of-tables", "jaccard (%s) over contigs %r = %r, per-base model %r" % (way, names, got, a_ / (N - d_)), dict(wit, way=way, got=got, expected=a_ / (N - d_)), (nt, way))
+        # merge_intervals over the table grouped per chromosome
+        from bionumpy.streams import groupby as _groupby
+        dgap = r.choice([0, 0, 2])
+        got_m = {}
+        for nm_, mg_ in merge_intervals(_groupby(mk(sorted(A, key=lambda x: (names.index(x[0]), x[1], x[2]))), "chromosome"), distance=dgap):
+            got_m[str(nm_)] = list(zip(np.asarray(mg_.start).tolist(), np.asarray(mg_.stop).tolist()))
+        exp_m = {}
+        for n in names:
+            rows_n = sorted((x[1], x[2]) for x in A if x[0] == n)
+            if rows_n:
+                out_ = [list(rows_n[0])]
+                for a1, b1 in rows_n[1:]:
+                    if a1 <= out_[-1][1] + dgap:
+                        out_[-1][1] = max(out_[-1][1], b1)
+                    else:
+                        out_.append([a1, b1])
+                exp_m[n] = [tuple(x) for x in out_]
+        ctx.check("merge", got_m == exp_m, "merge_intervals/grouped-per-chromosome", "merge_intervals(groupby(table, 'chromosome'), distance=%d) gave %r, per-chromosome model %r" % (dgap, got_m, exp_m), dict(wit, got=got_m, expected=exp_m, distance=dgap), (nt, "grouped", dgap))
         if N - d_ > 0:
             got = jaccard(sizes, mk(A), mk(B))
             ctx.check("jaccard", abs(got - a_ / (N - d_)) < 1e-12, "jaccard/value:several-contigs", "jaccard over %d contigs = %r, per-base model %r" % (len(names), got, a_ / (N - d_)), dict(wit, got=got, expected=a_ / (N - d_)), nt)
